@@ -25,6 +25,20 @@ for mode, lens in LENS.items():
                             bound="message length %d octets, key %d octets; key/IV/contents symbolic; block function uninterpreted" % (cnt, kl),
                             unwind=cnt + 20, spec_unwind=cnt + 20, search=20000, split=True, timeout=600,
                             fn=["belt%sStart" % mode.upper(), "belt%sStepE" % mode.upper(), "belt%sStepD" % mode.upper(), "belt%s_keep" % mode.upper(), "beltKeyExpand2"]))
+# belt-bde against the standard over the uninterpreted block function (round 3; was native-only in relations.*)
+BDE = ["src/crypto/belt/belt_bde.c"] + BELT
+GROUPS.append(G("modes.mulc", "harness/C01/modes.c", "h_mulc", BDE + KEYX, level="Pc", unwind=20, spec_unwind=20, search=20000, split=True, timeout=300,
+                fn=["beltBlockMulC"], note="all 2^128 blocks; the spec loop runs over 16 octets"))
+for cnt in (16, 32, 48, 64):
+    for kl in (16, 24, 32):
+        if kl != 32 and cnt != 32:
+            continue
+        GROUPS.append(G("modes.bde.cnt%d.k%d" % (cnt, kl), "harness/C01/modes.c", "h_bde", BDE + KEYX,
+                        stubs=["stubs/belt_uf.c"], strip=UF, defs=["CNT=%d" % cnt, "KLEN=%d" % kl], level="B",
+                        bound="message length %d octets, key %d octets; key/IV/contents symbolic; block function uninterpreted" % (cnt, kl),
+                        unwind=cnt + 20, spec_unwind=cnt + 20, search=20000, split=True, timeout=600,
+                        fn=["beltBDEStart", "beltBDEStepE", "beltBDEStepD", "beltBDE_keep", "beltBlockMulC", "beltKeyExpand2"],
+                        note="beltBDEEncr / beltBDEDecr == the same spec only in the native search of this harness (N)"))
 BLK = ["src/core/mem.c", "src/core/util.c", "src/core/u32.c", "src/core/u64.c", "src/core/u16.c", "src/core/word.c"]
 def blk(name, entry, backend, fn, note, **kw):
     return G("block." + name, "harness/C01/block.c", entry, BLK, level=kw.pop("level", "P"), backend=backend, search=100000,
